@@ -24,6 +24,10 @@ pub enum Strategy {
     Weighted { p_switch: f64, slow_tid: Tid, factor: u32 },
     /// PCT: random priorities, `depth` priority change points within the first `est_len` choices
     Pct { depth: u32, est_len: u64 },
+    /// like Random, but a per-run random subset of the code sites (one in `density`, selected by
+    /// `key`) deschedules the thread that reaches it for `hold` choice points, as long as anyone
+    /// else can run: "a thread is preempted for long exactly at this instruction"
+    SitePark { p_switch: f64, key: u64, density: u32, hold: u64, p_park: f64 },
 }
 
 #[derive(Clone, Debug, PartialEq)]
@@ -134,6 +138,8 @@ pub struct Outcome {
     pub timeouts: u64,
     pub blocks: u64,
     pub stall_steps: u64,
+    /// SitePark strategy: how often a thread was descheduled at a selected site
+    pub site_parks: u64,
     /// >= 2 threads existed and at least one context switch happened at a non-blocking point
     pub preemptions: u64,
     pub trace: Vec<TraceEv>,
@@ -197,6 +203,9 @@ struct State {
     stall_done: bool,
     jump_checked: u64,
     trace: Vec<TraceEv>,
+    /// SitePark: (thread, not scheduled before this choice index)
+    parked: Vec<(Tid, u64)>,
+    site_parks: u64,
 }
 
 pub(crate) struct Sim {
@@ -389,7 +398,7 @@ impl State {
                 _ => default,
             }
         } else {
-            self.pick(cur, &runnable, idx)
+            self.pick(cur, &runnable, idx, site)
         };
         if chosen != default {
             self.decisions.push(Decision::Switch { at: idx, tid: chosen });
@@ -423,7 +432,7 @@ impl State {
         Some(chosen)
     }
 
-    fn pick(&mut self, cur: Option<Tid>, runnable: &[Tid], idx: u64) -> Tid {
+    fn pick(&mut self, cur: Option<Tid>, runnable: &[Tid], idx: u64, site: u64) -> Tid {
         // stall filter
         let mut cands: Vec<Tid> = runnable.to_vec();
         if let Some(stall) = &self.cfg.stall {
@@ -473,6 +482,33 @@ impl State {
                     r -= wt;
                 }
                 pool[0]
+            }
+            Strategy::SitePark { p_switch, key, density, hold, p_park } => {
+                // does the running thread get parked here?
+                if let Some(c) = cur_ok {
+                    if cands.len() > 1
+                        && self.faults_on(idx)
+                        && mix(site, key) % density.max(1) as u64 == 0
+                        && !self.parked.iter().any(|(t, _)| *t == c)
+                        && self.rng.chance(p_park)
+                    {
+                        self.parked.push((c, idx + hold));
+                        self.site_parks += 1;
+                    }
+                }
+                self.parked.retain(|(_, until)| *until > idx);
+                let free: Vec<Tid> =
+                    cands.iter().copied().filter(|t| !self.parked.iter().any(|(p, _)| p == t)).collect();
+                let pool = if free.is_empty() { cands.clone() } else { free };
+                if let Some(c) = cur_ok.filter(|c| pool.contains(c)) {
+                    if pool.len() == 1 || !self.rng.chance(p_switch) {
+                        return c;
+                    }
+                    let others: Vec<Tid> = pool.iter().copied().filter(|t| *t != c).collect();
+                    others[self.rng.usize_below(others.len())]
+                } else {
+                    pool[self.rng.usize_below(pool.len())]
+                }
             }
             Strategy::Pct { .. } => {
                 if let Some(c) = cur {
@@ -1038,6 +1074,8 @@ where
         stall_done: false,
         jump_checked: 0,
         trace: vec![],
+        parked: vec![],
+        site_parks: 0,
     };
     if trace_on {
         enable_site_names();
@@ -1071,6 +1109,7 @@ where
         timeouts: st.timeouts,
         blocks: st.blocks,
         stall_steps: st.stall_steps,
+        site_parks: st.site_parks,
         preemptions: st.preemptions,
         trace: std::mem::take(&mut st.trace),
     };
